@@ -25,7 +25,7 @@ c_UnsizedStr == {"String"}
 c_ObjListsStr == {<<A>>, <<A, B>>, <<B, A>>}
 \* type-change slice: a channel restated with another type must be rejected, whatever the two types are (types
 \* without a NumPy counterpart, a float type and its with-unit twin)
-c_TypeSetTC == {"String", "TimeStamp", "DoubleFloat", "DoubleFloatWithUnit"}
-c_WidthTC == [t \in c_TypeSetTC |-> CASE t = "String" -> 6 [] t = "TimeStamp" -> 16 [] OTHER -> 8]
+c_TypeSetTC == {"String", "TimeStamp", "DoubleFloat", "DoubleFloatWithUnit", "Int32"}
+c_WidthTC == [t \in c_TypeSetTC |-> CASE t = "String" -> 6 [] t = "TimeStamp" -> 16 [] t = "Int32" -> 4 [] OTHER -> 8]
 c_ForbiddenTC == {"type-change"}
 ====
